@@ -3,7 +3,7 @@ import PhysisModel.Spec.Tera
 import Std.Tactic.BVDecide
 /-!
 The binary32 arithmetic of `src/tera.rs` on the 128-unit grid, for **all** 65 536 plate coordinates,
-by bit-blasting (`bv_decide`), one rounding per lemma:
+by bit-blasting (`bv_decide (timeout := 300)`), one rounding per lemma:
 
   reader:  c ─ofI16→ c ─(+½)→ c+½ ─(·128)→ 128c+64
   writer:  128c+64 ─(/128)→ c+½ ─(−½)→ c ─as i16→ c
@@ -23,7 +23,7 @@ theorem ofU32_128 : ofU32 128 = 0x43000000 := by decide +kernel
 theorem ofI16_eq (c : UInt16) : ofI16 c = fOfCoord c := by
   simp -zeta only [fOfCoord, ofI16, round, roundMag, F32Arith.msb, signBit,
     f32OfInt32, mag32, sext16, Spec.Tera.msb, Spec.Tera.msb1, Spec.Tera.msb2, Spec.Tera.msb3, Spec.Tera.msb4]
-  bv_decide
+  bv_decide (timeout := 300)
 
 /-- unfold the closed forms in the hypothesis `h`, the float operation in the goal (in stages, keeping
 the `let`s shared), and bit-blast -/
